@@ -482,6 +482,77 @@ def check_measure_shots(case, acc):
         acc.out(k)
 
 
+def check_measure_shots_dmr(case, acc):
+    """MEASURE-only programs, finite shots AND a desired outcome string: the returned frequencies must be the post-selected,
+    renormalised marginal of the very table of shots the backend recorded (all_frequencies), and for one shot the executions
+    weighted by their recorded draw probabilities must return {final: 1} with the reference joint probability P(b, final)."""
+    from tangelo.linq import get_backend
+    prog, n, shots, b = case["prog"], case["n"], case["n_shots"], case["dmr"]
+    sg = psig(prog, None)
+    res, dead = branches(prog, n, None)
+    nm = len(b)
+    joint_ref = {}
+    for br in res:
+        for k, v in SV.freqs(br["psi"], n).items():
+            if v > 1e-12:
+                joint_ref[br["outs"] + k] = joint_ref.get(br["outs"] + k, 0) + br["p"] * v
+
+    def bad(kind, detail):
+        acc.violation(f"measure-shots-dmr/{kind}/{sg}", case, detail, group=f"measure-shots-dmr/{kind}")
+
+    def run(ch):
+        circ = mk_circ(prog, n, None)
+        be = get_backend("cirq", n_shots=shots)
+        be.cirq = seams.CirqProxy(ch)
+        try:
+            fr, _ = be.simulate(circ, desired_meas_result=b)
+        except choicetree.HorizonExceeded:
+            raise
+        except Exception as e:
+            return {"raised": type(e).__name__, "all": dict(getattr(be, "all_frequencies", {}) or {})}
+        return {"fr": {k: float(v) for k, v in fr.items()}, "all": dict(be.all_frequencies)}
+
+    induced = {}
+    wsum = 0.0
+    n_exec = 0
+    for choices, trace, infos, out in choicetree.explore(run, max_exec=case.get("max_exec"), horizon=40):
+        n_exec += 1
+        acc.ev()
+        acc.transitions += len(trace)
+        if out == "HORIZON":
+            bad("retry-loop-exceeds-horizon", {"draws": len(trace)})
+            break
+        w = weight_of(trace, infos)
+        wsum += w
+        allf = out["all"]
+        sel = {k[nm:]: v for k, v in allf.items() if k[:nm] == b}
+        tot = sum(sel.values())
+        if "fr" in out:
+            want = {k: v / tot for k, v in sel.items()} if tot > 0 else {}
+            if fdiff(out["fr"], want) > 1e-12 or set(out["fr"]) != set(want):
+                bad("frequencies-are-not-the-post-selected-shots", {"returned": out["fr"], "recorded_shots": allf, "desired": b, "expected": want})
+            key = tuple(sorted(out["fr"].items()))
+        else:
+            if tot > 0:
+                bad("raises-although-shots-match", {"raised": out["raised"], "recorded_shots": allf})
+            key = ("no-matching-shot",)
+        induced[key] = induced.get(key, 0) + w
+    if choicetree.explore.capped:
+        acc.caps.append("measure-shots-dmr execution cap")
+    elif shots == 1 and abs(wsum - 1) < 1e-9:
+        acc.ev()
+        for key, w in induced.items():
+            if key and key[0] != "no-matching-shot" and len(key) == 1:
+                final = key[0][0]
+                if abs(w - joint_ref.get(b + final, 0.0)) > 1e-9:
+                    bad("post-selected-sample-not-distributed-as-branch-probability", {"final": final, "induced": w, "ref": joint_ref.get(b + final, 0.0)})
+    acc.states += n_exec
+    if len(joint_ref) > 1:
+        acc.nt(("measure-shots-dmr", prog, shots, b))
+    for k in induced:
+        acc.out(k)
+
+
 # ---------------------------------------------------------------------------------------------------------------------
 
 def alphabet(seed):
@@ -597,6 +668,16 @@ def run_shard(sh):
                         continue
                     acc.states += 1
                     check_measure_shots({"kind": "mshots", "prog": prog, "n": 2, "n_shots": shots, "save": save, "max_exec": 5000}, acc)
+            # desired outcome string together with finite shots (every string, 1 and 2 shots)
+            nm_ = sum(1 for g in prog if g[0] == "MEASURE")
+            if len(prog) <= 3 or tier == "thorough":
+                for bits in itertools.product("01", repeat=nm_):
+                    for shots in (1, 2):
+                        if shots == 2 and nm_ > 2:
+                            continue
+                        acc.states += 1
+                        check_measure_shots_dmr({"kind": "mshots_dmr", "prog": prog, "n": 2, "n_shots": shots, "dmr": "".join(bits),
+                                                 "max_exec": 5000}, acc)
         if sh["part"] == 0:
             acc.sample({"kind": "mshots", "prog": progs[37], "n": 2, "n_shots": 1, "save": True}, cap=1)
     elif k == "cshots":
@@ -630,6 +711,8 @@ def replay_case(case):
         check_measure_shots(case, acc)
     elif k == "cshots":
         check_cmeasure_shots(case, acc)
+    elif k == "mshots_dmr":
+        check_measure_shots_dmr(case, acc)
     return acc
 
 
